@@ -627,8 +627,11 @@ fn field_set(rng: &mut Rng, ty: Ty, lossless: bool) -> Vec<Tok> {
         match rng.below(4) {
             0 => {
                 f.push(Tok::DDD);
-                if rng.chance(1, 3) {
-                    f.push(month_tok(rng));
+                match rng.below(4) {
+                    0 => f.push(month_tok(rng)),
+                    // day of month without a month field: year + day-of-year still determine the date
+                    1 => f.push(Tok::DD),
+                    _ => {}
                 }
             }
             1 => {
